@@ -95,11 +95,44 @@ type Backend struct {
 	AbortUploadAfter int64 // >0: read this many body bytes of a proxied request, then RST without answering
 }
 
+// ownPorts: every port this process has listened on (its backends, its stacks).  Several harness processes may run at
+// once on one machine and ports are handed out again as soon as they are free, so a proxy of another process that still
+// holds the address of a backend long gone can send a request here.  Such a request names, in X-Forwarded-Host, a proxy
+// address on this machine that was never ours: it is answered 503 and not recorded.  (Anything else — no such header, a
+// host name, an address of ours — is recorded as before: a proxy of ours that sends a wrong request is still seen.)
+var (
+	ownPorts    sync.Map
+	ForeignHits int64
+)
+
+func OwnPort(addr string) {
+	if _, p, err := net.SplitHostPort(addr); err == nil {
+		ownPorts.Store(p, true)
+	}
+}
+
+func foreign(req *http.Request) bool {
+	vs := req.Header.Values("X-Forwarded-Host")
+	if len(vs) != 1 {
+		return false
+	}
+	h, p, err := net.SplitHostPort(vs[0])
+	if err != nil || h != "127.0.0.1" {
+		return false
+	}
+	if _, err := strconv.Atoi(p); err != nil {
+		return false
+	}
+	_, ours := ownPorts.Load(p)
+	return !ours
+}
+
 func NewBackend(name string) *Backend {
 	ln, err := net.Listen("tcp", "127.0.0.1:0")
 	if err != nil {
 		panic(err)
 	}
+	OwnPort(ln.Addr().String())
 	b := &Backend{Name: name, ln: ln, addr: ln.Addr().String()}
 	b.script = func(int, *Seen) Behaviour {
 		return Behaviour{Kind: "ok", Status: 200, Headers: [][2]string{{"Content-Type", "application/json"}}, Body: []byte(`{"ok":true,"from":"` + name + `"}`)}
@@ -257,6 +290,12 @@ func (b *Backend) handle(c net.Conn) {
 			return
 		}
 		p := req.URL.EscapedPath()
+		if foreign(req) {
+			atomic.AddInt64(&ForeignHits, 1)
+			_, _ = io.Copy(io.Discard, req.Body)
+			fmt.Fprintf(c, "HTTP/1.1 503 X\r\nContent-Type: text/plain\r\nX-Verif-Foreign: 1\r\nContent-Length: 7\r\nConnection: close\r\n\r\nforeign")
+			return
+		}
 		if n := atomic.LoadInt64(&b.AbortUploadAfter); n > 0 && p != "/health" && !strings.HasSuffix(p, "/zz-health") && !strings.HasSuffix(p, "/v1/models") {
 			// consume part of the upload, then reset the connection without answering
 			got, _ := io.CopyN(io.Discard, req.Body, n)
@@ -748,6 +787,7 @@ func start1(o Opts) (*Stack, error) {
 		o.Mutate(cfg)
 	}
 	cfg.Server.Port = freePort()
+	OwnPort(fmt.Sprintf("127.0.0.1:%d", cfg.Server.Port))
 	if o.Load {
 		data, err := yaml.Marshal(cfg)
 		if err != nil {
